@@ -184,6 +184,175 @@ func ruleAztecState(c *Ctx) {
 			c.Check(R, "aztec.(*state).latchAndAppend/latch-entry", lk.Pos(), canonAccess(got) == "global:aztec.latchTable[s.mode][mode]", "latchTable[s.mode][mode]", got)
 		}
 	}
+	// latch tokens: wherever a latchTable entry L is turned into a token, the token carries the low 16
+	// bits of L as its value and L >> 16 as its bit count (the longest latch, Digit -> Punct, has 14 bits)
+	for _, name := range []string{"aztec.(*state).latchAndAppend", "aztec.(*state).addBinaryShiftChar"} {
+		fn := c.P.Func(name)
+		if fn == nil {
+			continue
+		}
+		n := NewNormer(c.P)
+		n.BindParams(fn, "s", "mode", "value")
+		found := 0
+		for _, site := range c.P.deepCallsTo(fn, c.P.Func("aztec.newSimpleToken")) {
+			call := site.Ins.(*ssa.Call)
+			a := call.Common().Args
+			saved := n.Ctx
+			n.Ctx = site.Path
+			val, cnt := n.Norm(a[1]).String(), n.Norm(a[2]).String()
+			n.Ctx = saved
+			if !strings.Contains(val, "latchTable") && !strings.Contains(cnt, "latchTable") {
+				continue
+			}
+			found++
+			// L: the table entry inside the value expression
+			L := ""
+			if i := strings.Index(val, "idx(idx(global:aztec.latchTable"); i >= 0 {
+				depth := 0
+				for j := i; j < len(val); j++ {
+					if val[j] == '(' {
+						depth++
+					} else if val[j] == ')' {
+						depth--
+						if depth == 0 {
+							L = val[i : j+1]
+							break
+						}
+					}
+				}
+			} else if i := strings.Index(val, "global:aztec.latchTable["); i >= 0 {
+				j := i
+				for depth := 0; j < len(val); j++ {
+					if val[j] == '[' {
+						depth++
+					} else if val[j] == ']' {
+						depth--
+						if depth == 0 && (j+1 >= len(val) || val[j+1] != '[') {
+							break
+						}
+					}
+				}
+				L = val[i : j+1]
+			}
+			okVal := L != "" && (val == "And(65535,"+L+")" || val == "And("+L+",65535)" || val == "Conv:uint16("+L+")" || val == "Mod("+L+",65536)")
+			okCnt := L != "" && (cnt == "Conv:uint8(Shr("+L+",16))" || cnt == "Shr("+L+",16)" || cnt == "Conv:uint8(Div("+L+",65536))" || cnt == "Div("+L+",65536)")
+			c.Check(R, fmt.Sprintf("%s/latch-token#%d", name, found), call.Pos(), okVal && okCnt, "token(L & 0xFFFF, L >> 16) for the latch entry L", fmt.Sprintf("token(%s, %s)", val, cnt))
+		}
+		c.Check(R, name+"/latch-token", fn.Pos(), found >= 1, "a token made from the latch entry", fmt.Sprint(found))
+	}
+	if fn := c.theFunc(R, "aztec.(*state).latchAndAppend"); fn != nil {
+		// the value token and the new state
+		n := NewNormer(c.P)
+		n.BindParams(fn, "s", "mode", "value")
+		n.NoInline["aztec.(encodingMode).BitCount"] = true
+		var valueTok *ssa.Call
+		for _, call := range callsTo(fn, c.P.Func("aztec.newSimpleToken")) {
+			if n.Norm(call.Common().Args[1]).String() == "value" {
+				valueTok = call
+			}
+		}
+		if valueTok == nil {
+			c.Check(R, "aztec.(*state).latchAndAppend/value-token", fn.Pos(), false, "a token for the value", "none")
+		} else {
+			got := n.Norm(valueTok.Common().Args[2]).String()
+			c.Check(R, "aztec.(*state).latchAndAppend/value-token", valueTok.Pos(), got == "call:aztec.(encodingMode).BitCount(mode)", "token(value, BitCount of the NEW mode)", got)
+			c.expectCond(R, "aztec.(*state).latchAndAppend/value-token-always", valueTok.Pos(), n.ReachCond(fn, nil, valueTok.Block()), "true")
+			// it follows the latch token when there is one, else the old tokens
+			prevOK := false
+			for _, cs := range n.valueCases(fn, nil, valueTok.Common().Args[0], 0) {
+				_ = cs
+				prevOK = true
+			}
+			if phi, ok := valueTok.Common().Args[0].(*ssa.Phi); ok {
+				seenOld, seenLatch := false, false
+				for _, e := range phi.Edges {
+					if n.Norm(e).String() == "s.tokens" {
+						seenOld = true
+						continue
+					}
+					// the latch token: built here, or in a helper that returns it
+					for _, site := range c.P.deepCallsTo(fn, c.P.Func("aztec.newSimpleToken")) {
+						lc := site.Ins.(*ssa.Call)
+						if lc == valueTok || n.NormAt(site, lc.Common().Args[0]).String() != "s.tokens" {
+							continue
+						}
+						switch x := e.(type) {
+						case *ssa.Call:
+							if x == lc {
+								seenLatch = true
+							} else if len(site.Path) == 1 && site.Path[0] == ssa.CallInstruction(x) {
+								for _, r := range returnsOf(site.Fn) {
+									if len(r.Results) == 1 && r.Results[0] == ssa.Value(lc) {
+										seenLatch = true
+									}
+								}
+							}
+						case *ssa.Extract:
+							if hc, isCall := x.Tuple.(*ssa.Call); isCall && len(site.Path) == 1 && site.Path[0] == ssa.CallInstruction(hc) {
+								rs := returnsOf(site.Fn)
+								okAll := len(rs) > 0
+								for _, r := range rs {
+									okAll = okAll && x.Index < len(r.Results) && r.Results[x.Index] == ssa.Value(lc)
+								}
+								seenLatch = seenLatch || okAll
+							}
+						}
+					}
+				}
+				prevOK = seenOld && seenLatch
+			} else {
+				prevOK = false
+			}
+			c.Check(R, "aztec.(*state).latchAndAppend/token-chain", valueTok.Pos(), prevOK, "value token follows the latch token (which follows s.tokens), or s.tokens when no latch is needed", n.Norm(valueTok.Common().Args[0]).String())
+		}
+		var obj *ssa.Alloc
+		eachInstr(fn, func(b *ssa.BasicBlock, ins ssa.Instruction) {
+			if a, ok := ins.(*ssa.Alloc); ok && namedTypeName(a.Type()) == "aztec.state" {
+				obj = a
+			}
+		})
+		if obj == nil {
+			c.Undecided(R, "aztec.(*state).latchAndAppend/result", fn.Pos(), "no new state")
+		} else {
+			for _, f := range []struct{ name, want string }{{"mode", "mode"}, {"bShiftByteCount", "0"}} {
+				sts := fieldStores(fn, obj, f.name)
+				got := "not stored"
+				if len(sts) == 1 {
+					got = n.Norm(sts[0].Val).String()
+				}
+				if f.name == "bShiftByteCount" && len(sts) == 0 {
+					got = "0" // left at its zero value
+				}
+				c.Check(R, "aztec.(*state).latchAndAppend/new-"+f.name, fn.Pos(), got == f.want, f.want, got)
+			}
+			if sts := fieldStores(fn, obj, "tokens"); len(sts) == 1 && valueTok != nil {
+				c.Check(R, "aztec.(*state).latchAndAppend/new-tokens", sts[0].Pos(), sts[0].Val == ssa.Value(valueTok), "the value token", n.Norm(sts[0].Val).String())
+			} else {
+				c.Check(R, "aztec.(*state).latchAndAppend/new-tokens", fn.Pos(), false, "the value token", fmt.Sprint(len(sts))+" stores")
+			}
+			if sts := fieldStores(fn, obj, "bitCount"); len(sts) == 1 {
+				var cases []valCase
+				for _, cs := range n.valueCases(fn, nil, sts[0].Val, 0) {
+					// the latch cost, whatever entry it is read from, is named by its role
+					v := Poly{}
+					for m, cf := range cs.val {
+						if (strings.HasPrefix(m, "Shr(") && strings.HasSuffix(m, ",16)") || strings.HasPrefix(m, "Div(") && strings.HasSuffix(m, ",65536)")) && strings.Contains(m, "latchTable") {
+							v["latchbits"] += cf
+						} else {
+							v[m] += cf
+						}
+					}
+					cases = append(cases, valCase{v, cs.cond})
+				}
+				base := pAdd(pAtom("s.bitCount"), n.Norm(bitCountOfMode(fn, sts[0].Val)), 1)
+				checkCasesC(c, R, "aztec.(*state).latchAndAppend/new-bitCount", sts[0].Pos(), mergeCases(cases), []caseSpec{
+					{pAdd(base, pAtom("latchbits"), 1), MustRefCond("mode != s.mode")},
+					{base, MustRefCond("mode == s.mode")}})
+			} else {
+				c.Check(R, "aztec.(*state).latchAndAppend/new-bitCount", fn.Pos(), false, "one store of the bit count", fmt.Sprint(len(sts)))
+			}
+		}
+	}
 	if fn := c.theFunc(R, "aztec.(*state).shiftAndAppend"); fn != nil {
 		n := NewNormer(c.P)
 		n.BindParams(fn, "s", "mode", "value")
@@ -201,4 +370,38 @@ func ruleAztecState(c *Ctx) {
 			c.Check(R, "aztec.(*state).shiftAndAppend/value-token", calls[1].Pos(), got == "(value, 5)", "(value, 5)", got)
 		}
 	}
+}
+
+// bitCountOfMode: the conversion of mode.BitCount() (of the function's mode parameter) that occurs in
+// the expression v; v itself when there is none (the comparison then fails with both forms shown).
+func bitCountOfMode(fn *ssa.Function, v ssa.Value) ssa.Value {
+	var found ssa.Value
+	seen := map[ssa.Value]bool{}
+	var walk func(x ssa.Value, depth int)
+	walk = func(x ssa.Value, depth int) {
+		if x == nil || seen[x] || depth > 8 || found != nil {
+			return
+		}
+		seen[x] = true
+		switch y := x.(type) {
+		case *ssa.Convert:
+			if call, ok := y.X.(*ssa.Call); ok && calleeOf(call) != nil && calleeOf(call).Name() == "BitCount" && len(call.Common().Args) == 1 && call.Common().Args[0] == ssa.Value(fn.Params[1]) {
+				found = y
+				return
+			}
+			walk(y.X, depth+1)
+		case *ssa.BinOp:
+			walk(y.X, depth+1)
+			walk(y.Y, depth+1)
+		case *ssa.Phi:
+			for _, e := range y.Edges {
+				walk(e, depth+1)
+			}
+		}
+	}
+	walk(v, 0)
+	if found == nil {
+		return v
+	}
+	return found
 }
